@@ -17,6 +17,9 @@ pub struct Src {
     pub prefix_upper: bool,
     /// hex digit case: 0 lower, 1 upper, 2 mixed
     pub digit_case: u8,
+    /// leading zeros written after the prefix of a based literal (`0x00FF`, a binary word padded to 64 digits and beyond)
+    #[serde(default)]
+    pub pad: u8,
 }
 
 /// independent radix formatter
@@ -76,7 +79,7 @@ impl Src {
                     1 => d.to_uppercase(),
                     _ => d.chars().enumerate().map(|(i, c)| if i % 2 == 0 { c.to_ascii_uppercase() } else { c }).collect(),
                 };
-                format!("{}{}", p, d)
+                format!("{}{}{}", p, "0".repeat(self.pad as usize), d)
             }
         }
     }
@@ -131,6 +134,8 @@ pub enum Shape {
     Arith(Src, u8, Src),
     /// `x = A op B` (A a based literal, B decimal and possibly fractional; op 0 + 1 - 2 * 3 /) followed by `x [to] target`
     VarConvert(Src, u8, Src, bool, u8),
+    /// `P% of|on|off <based literal> [to] target` (phrase 0 of, 1 on, 2 off): N is the value of the phrase
+    PctConvert(u8, u32, Src, bool, u8),
 }
 
 #[derive(Clone, Debug, Serialize, Deserialize)]
@@ -160,6 +165,15 @@ pub fn case_line(c: &Case) -> Line {
             l.push(a.tok());
             l.push(Tok::op(['+', '-', '*'][*op as usize % 3]).sp(if c.glue & 1 != 0 { 0 } else { 1 }));
             l.push(b.tok().sp(if c.glue & 2 != 0 { 0 } else { 1 }));
+        }
+        Shape::PctConvert(ph, p, src, to, t) => {
+            l.push(Tok { pre: format!("{}%", p), num: None, post: String::new(), class: Class::Percent, space: 1 });
+            l.push(Tok::word(["of", "on", "off"][*ph as usize % 3], Class::Conn));
+            l.push(src.tok());
+            if *to {
+                l.push(Tok::word("to", Class::Conn));
+            }
+            l.push(Tok::word(TARGETS[*t as usize % 5].0, Class::Keyword));
         }
         Shape::VarConvert(_, _, _, to, t) => {
             l.push(Tok::word("x", Class::Var));
@@ -279,15 +293,34 @@ impl Prop for Based {
                     other => acc.fail(format!("expected Number({:?}) got {}", cands, other.brief())),
                 }
             }
-            Shape::VarConvert(a, op, b, _, t) => {
-                kind = "conversion-of-a-variable";
-                let (_, tb) = TARGETS[*t as usize % 5];
-                let (x, y) = (a.value(), b.value());
-                let v = match op % 4 {
-                    0 => x + y,
-                    1 => x - y,
-                    2 => x * y,
-                    _ => x / y,
+            Shape::VarConvert(..) | Shape::PctConvert(..) => {
+                let (v, tb) = match &c.shape {
+                    Shape::VarConvert(a, op, b, _, t) => {
+                        kind = "conversion-of-a-variable";
+                        let (x, y) = (a.value(), b.value());
+                        (
+                            match op % 4 {
+                                0 => x + y,
+                                1 => x - y,
+                                2 => x * y,
+                                _ => x / y,
+                            },
+                            TARGETS[*t as usize % 5].1,
+                        )
+                    }
+                    Shape::PctConvert(ph, p, src, _, t) => {
+                        kind = "conversion-of-a-percentage-phrase";
+                        let (x, p) = (src.value(), *p as f64);
+                        (
+                            match ph % 3 {
+                                0 => x * p / 100.0,
+                                1 => x * (1.0 + p / 100.0),
+                                _ => x * (1.0 - p / 100.0),
+                            },
+                            TARGETS[*t as usize % 5].1,
+                        )
+                    }
+                    _ => unreachable!(),
                 };
                 let fl = v.floor();
                 let cands: Vec<u64> = if ((v - fl) - 0.5).abs() < 1e-6 { vec![fl as u64, fl as u64 + 1] } else { vec![v.round() as u64] };
@@ -375,11 +408,11 @@ pub fn src_strategy(allow_frac: bool) -> impl Strategy<Value = Src> {
     } else {
         Just(None).boxed()
     };
-    (n_strategy(), prop::sample::select(vec![10u8, 16, 8, 2]), frac, any::<bool>(), 0u8..3).prop_map(|(n, base, frac, prefix_upper, digit_case)| {
+    (n_strategy(), prop::sample::select(vec![10u8, 16, 8, 2]), frac, any::<bool>(), 0u8..3, prop_oneof![6 => Just(0u8), 2 => 1u8..=8, 1 => prop::sample::select(vec![16u8, 22, 32, 48, 64, 70])]).prop_map(|(n, base, frac, prefix_upper, digit_case, pad)| {
         let frac = if base == 10 { frac } else { None };
         // a fractional decimal stays below 2^52 so that the fraction is representable
         let n = if frac.is_some() { n % (1u64 << 36) } else { n };
-        Src { n, base, frac, prefix_upper, digit_case }
+        Src { n, base, frac, prefix_upper, digit_case, pad: if base == 10 { 0 } else { pad } }
     })
 }
 
@@ -414,6 +447,10 @@ fn case_strategy_default_format() -> impl Strategy<Value = Case> {
             }
             Case { shape: Shape::VarConvert(a, op, b, to, t), glue: 0, num: None }
         }),
+        2 => (0u8..3, 0u32..=100, src_strategy(false), any::<bool>(), 0u8..5).prop_map(|(ph, p, src, to, t)| {
+            // (a percentage of a number below 2^24 keeps every intermediate value exact enough to know the rounding)
+            Case { shape: Shape::PctConvert(ph, p, Src { n: src.n % (1 << 24), ..src }, to, t), glue: 0, num: None }
+        }),
     ]
 }
 
@@ -427,11 +464,11 @@ pub fn table() -> Vec<Case> {
         for base in [10u8, 16, 8, 2] {
             for t in 0..5u8 {
                 for to in [true, false] {
-                    out.push(Case { shape: Shape::Convert(Src { n, base, frac: None, prefix_upper: to, digit_case: t % 3 }, to, t), glue: 0, num: None });
+                    out.push(Case { shape: Shape::Convert(Src { n, base, frac: None, prefix_upper: to, digit_case: t % 3, pad: 0 }, to, t), glue: 0, num: None });
                 }
             }
             if base != 10 {
-                out.push(Case { shape: Shape::Literal(Src { n, base, frac: None, prefix_upper: false, digit_case: 0 }), glue: 0, num: None });
+                out.push(Case { shape: Shape::Literal(Src { n, base, frac: None, prefix_upper: false, digit_case: 0, pad: 0 }), glue: 0, num: None });
             }
         }
     }
